@@ -472,10 +472,15 @@ enum Behaviour {
     StopAfter(usize),
     /// status flow that stops before the ping
     StatusNoPing,
+    /// behind a balancer (PROXY protocol on): the connection never announces its client
+    NoHeader,
+    /// behind a balancer: the announcement stops in the middle (v1 text without its line end, or
+    /// the twelve signature bytes of v2 and nothing after them)
+    HalfHeader(u8),
 }
 
 async fn deadline_case(server: SocketAddr, timeout: u64, b: Behaviour, direct: bool) -> Outcome {
-    let class = format!("deadline/timeout-{timeout}/{}{b:?}", if direct { "hanging-backend/" } else { "" });
+    let class = format!("deadline/timeout-{timeout}/{}{b:?}", if matches!(b, Behaviour::NoHeader | Behaviour::HalfHeader(_)) { "behind-a-balancer/" } else if direct { "hanging-backend/" } else { "" });
     let end = match TcpEnd::connect(server, None).await {
         Ok(e) => e,
         Err(e) => return Outcome { class, signature: None, detail: json!({}), inconclusive: Some(format!("connect failed: {e}")) },
@@ -484,7 +489,13 @@ async fn deadline_case(server: SocketAddr, timeout: u64, b: Behaviour, direct: b
     let t0 = end.connected_at;
     let mut client_log: Option<vp_sim::client::ClientLog> = None;
     match &b {
-        Behaviour::Silent => {}
+        Behaviour::Silent | Behaviour::NoHeader => {}
+        Behaviour::HalfHeader(v) => {
+            let source: SocketAddr = "198.51.100.77:40077".parse().expect("addr");
+            let full = if *v == 1 { tcp::proxy_v1(source, server) } else { tcp::proxy_v2(source, server) };
+            let cut = if *v == 1 { full.len() - 2 } else { 12 };
+            end.send(&full[..cut]);
+        }
         Behaviour::Drip => {
             let mut bytes = scripts::handshake(1, "limits.example.org", 25565, 770).frame();
             bytes.extend(Pkt::StatusRequest.frame());
@@ -531,10 +542,10 @@ async fn deadline_case(server: SocketAddr, timeout: u64, b: Behaviour, direct: b
     let open_for = closed_at.map(|t| t.duration_since(t0));
     // what the server said to a client it gave up on (C06 at the listener: a connection that is cut off
     // gets no reply beyond what the protocol step it was in had already produced)
-    let beh = match b { Behaviour::Silent => "silent", Behaviour::Drip => "drip", Behaviour::StopAfter(_) => "stalled-login", Behaviour::StatusNoPing => "stalled-status" };
+    let beh = match b { Behaviour::Silent => "silent", Behaviour::Drip => "drip", Behaviour::StopAfter(_) => "stalled-login", Behaviour::StatusNoPing => "stalled-status", Behaviour::NoHeader => "proxy-header-withheld", Behaviour::HalfHeader(_) => "proxy-header-half-sent" };
     let names: Vec<&'static str> = client_log.as_ref().map(|l| l.names()).unwrap_or_default();
     let said = match (&b, &client_log) {
-        (Behaviour::Silent | Behaviour::Drip, _) if end.bytes_received() > 0 => Some(format!("{} bytes were sent to a client that never completed a packet", end.bytes_received())),
+        (Behaviour::Silent | Behaviour::Drip | Behaviour::NoHeader | Behaviour::HalfHeader(_), _) if end.bytes_received() > 0 => Some(format!("{} bytes were sent to a client that never completed a packet", end.bytes_received())),
         // (no reply at all is fine too: a small configured maximum refuses the handshake frame itself)
         (Behaviour::StatusNoPing, Some(l)) if l.garbage.is_some() || l.incomplete_tail > 0 || !(names.is_empty() || names == ["StatusResponse"]) => Some(format!("a status client that never pinged received {names:?}{}", if l.garbage.is_some() || l.incomplete_tail > 0 { " plus bytes that are not a packet of the status phase" } else { "" })),
         (Behaviour::StopAfter(_), Some(l)) if l.garbage.is_some() || l.incomplete_tail > 0 || names.iter().any(|n| n.contains("Disconnect")) => Some(format!("a login client that stopped answering received {names:?}{}", if l.garbage.is_some() || l.incomplete_tail > 0 { " plus bytes that are not a packet of its phase under its cipher" } else { "" })),
@@ -547,7 +558,7 @@ async fn deadline_case(server: SocketAddr, timeout: u64, b: Behaviour, direct: b
     }
     let signature = match open_for {
         None => Some((
-            format!("connection-open-after-deadline/{}", match b { Behaviour::Silent => "silent", Behaviour::Drip => "drip", Behaviour::StopAfter(_) => "stalled-login", Behaviour::StatusNoPing => "stalled-status" }),
+            format!("connection-open-after-deadline/{beh}"),
             format!("the connection was still open {:.1} s after it was admitted (timeout {timeout} s)", t0.elapsed().as_secs_f64()),
         )),
         Some(_) => None,
@@ -693,6 +704,14 @@ pub async fn run(cli: &Cli, report: &mut Report) {
         futures.push(Box::pin(deadline_case(l.addr, timeout, Behaviour::StopAfter(99), true)));
         std::mem::forget(l);
     }
+    // behind a balancer: the announcement of the client is part of the connection and of its time
+    for timeout in if cli.prop == "C14" { vec![2u64] } else { vec![] } {
+        let l = start_direct(DirectSpec { timeout: Duration::from_secs(timeout), proxy: Some((true, true)), ..Default::default() }).await;
+        for b in [Behaviour::NoHeader, Behaviour::HalfHeader(1), Behaviour::HalfHeader(2)] {
+            futures.push(Box::pin(deadline_case(l.addr, timeout, b, true)));
+        }
+        std::mem::forget(l);
+    }
     let outcomes = futures_util::future::join_all(futures).await;
     let worst = lateness.worst();
     for (i, o) in outcomes.into_iter().enumerate() {
@@ -706,6 +725,9 @@ pub async fn run(cli: &Cli, report: &mut Report) {
         }
         if o.class.starts_with("deadline") {
             report.count("connections whose close time was measured", 1);
+            if o.class.contains("behind-a-balancer") {
+                report.count("connections behind a balancer that withheld or cut short the announcement of their client, close time measured", 1);
+            }
         } else if o.class.starts_with("cookie") {
             report.count("should-authenticate flags read", 1);
         } else {
